@@ -52,3 +52,11 @@ NOT_APPLICABLE = [
     {"property_id": p, "reason": "check not built yet in this session (planned, see DESIGN.md §4); not a limitation of the technique"}
     for p in ["C02", "C03", "C05", "C06", "C07", "C08", "C09", "C10", "C11", "C12", "C13", "C14", "C15", "C16", "C17", "C18", "C19", "C20"]
 ]
+
+prop("C20",
+     level_text="generated-input search (rapid): every callback invocation (resolvers, type resolvers, isTypeOf) is recorded and compared field by field with the call log the reference interpreter prescribes; one plan is re-executed with fresh variables, roots, contexts and resolver behaviours while resolvers scribble on their Args",
+     note="the expected call log comes from harness/ref; Info.FieldASTs is checked for 'contains every included occurrence and only occurrences of this key'",
+     technique="property-based testing (rapid) with an instrumented schema and a reference-model call log",
+     rule="C01 generator plus reuse histories (0-3 further ExecutePlan calls on the plan built for the first execution). Per call: exactly-once per reference path, Source identity (Tok id / request root), Args, FieldName, ReturnType, runtime ParentType, Path, FieldASTs, Operation, Fragments, VariableValues, RootValue, Schema, context marker; resolveType count per abstract value. Non-trivial = list depth >= 2, an abstract position with >= 2 runtime types, or a reused plan.",
+     assumptions=EXEC_ASSUME,
+     runs=[dict(test="^TestC20$", quick=dict(checks=3000), thorough=dict(checks=30000, shards=16, timeout=3000))])
